@@ -83,6 +83,42 @@ def main():
     check("Device.channel_get without the device-info lock",
           mutate("dev.py", "            with self._channels_lock:\n                return self._channels[chid]", "            return self._channels[chid]"),
           lambda t: any('"channel_get"' in r and ".read, [], 0, .no" in r for r in rows(t, "accesses")))
+    # lock scopes come from the AST (`ast.With` bodies), not from text: DEDENTING statements out of a `with` block
+    # (same tokens, same line numbers — invisible to a whitespace-collapsing comparison) changes the table
+    check("dedent: the device-copy update of _nxslib_channels_enable moved out of the `with` block -> unprotected read "
+          "of enNow, devUpdate outside the section",
+          mutate("comm.py", "            self._channels.en_now = copy.deepcopy(self._channels.en_new)\n            assert self.dev\n"
+                 "            self.dev.en_channels_update(self._channels.en_now)\n",
+                 "            self._channels.en_now = copy.deepcopy(self._channels.en_new)\n        assert self.dev\n"
+                 "        self.dev.en_channels_update(self._channels.en_now)\n"),
+          lambda t: any('"_nxslib_channels_enable"' in r and ".enNow, .read, [], 0, .no" in r for r in rows(t, "accesses"))
+          and any(".devUpdate" in r and ", 0, []" in r for r in rows(t, "exEnable")))
+    check("dedent: the loop of _ch_divider_default moved out of the `with` block -> unprotected writes of divNew",
+          mutate("comm.py", "            assert self._channels\n            for i, _ in enumerate(self._channels.div_new):\n"
+                 "                self._channels.div_new[i] = 0\n",
+                 "            assert self._channels\n        for i, _ in enumerate(self._channels.div_new):\n"
+                 "            self._channels.div_new[i] = 0\n"),
+          lambda t: any('"_ch_divider_default"' in r and ".divNew, .write, [], 0, .no" in r for r in rows(t, "accesses")))
+    check("dedent: the removal loop of stream_unsub moved out of the `with` block (a `pass` stays inside)",
+          mutate("nxscope.py", "        with self._queue_lock:\n            for i, sub in enumerate(self._sub_q):\n                if subq in sub:\n                    self._sub_q[i].remove(subq)",
+                 "        with self._queue_lock:\n            pass\n        for i, sub in enumerate(self._sub_q):\n            if subq in sub:\n                self._sub_q[i].remove(subq)"),
+          lambda t: any('"stream_unsub"' in r and ".write, [], 0, .no" in r for r in rows(t, "accesses")))
+    # joins
+    check("stream_stop joins the stream thread while holding the queue lock -> join site with held = [queue]",
+          mutate("nxscope.py", "            # stop stream thread\n            self._thrd.thread_stop()\n\n            self._stream_started = False",
+                 "            # stop stream thread\n            with self._queue_lock:\n                self._thrd.thread_stop()\n\n            self._stream_started = False"),
+          lambda t: any('"stream_stop"' in r and "[.queue], .stream" in r for r in rows(t, "joins")))
+    check("the stream thread waits for a stream frame without timeout -> foreverGets of its body",
+          mutate("comm.py", "            frame = self._q_stream.get(block=True, timeout=timeout)", "            frame = self._q_stream.get(block=True)"),
+          lambda t: any('"stream"' in r and ".stream, [.stream], []" in r for r in rows(t, "threads")))
+    # the reviewer's edit E-C12-3 (dedent inside `NxscopeHandler.stream_stop`, no lock scope involved) leaves the lock
+    # table alone by design: it is seen by Gen/CfgShape (streamStartStopShape, block structure) and the source pins
+    d = mutate("nxscope.py", "            # stop stream thread\n            self._thrd.thread_stop()\n\n            self._stream_started = False",
+               "        # stop stream thread\n        self._thrd.thread_stop()\n\n        self._stream_started = False")
+    t = gen_locks(d).text()
+    shutil.rmtree(d)
+    print(("ok   " if t == base else "note ") + "E-C12-3 (dedent in stream_stop outside any `with`): lock table " +
+          ("unchanged, as expected" if t == base else "changed"))
     print("FAILED: %s" % fails if fails else "all translator mutations detected")
     return 1 if fails else 0
 
